@@ -479,6 +479,7 @@ func (m *Manager) TerminateSession(ctx context.Context, sessionID string, reason
 	session.StateReason = string(reason)
 	session.UpdatedAt = time.Now()
 	m.mu.Unlock()
+	verifGate(m, "terminate.afterMark")
 
 	// Release IP addresses
 	if session.IPv4 != nil && m.allocator != nil {
